@@ -199,6 +199,25 @@ EXT4 = {
 }
 for pid, add in EXT4.items():
     CHECKS[pid]["text"] += add
+# Extensions made in the sixth strengthening round (see DESIGN.md §6).
+EXT5 = {
+ "C01": " Also: a withdrawal while the wallet's own client is billed.",
+ "C02": " Also: all histories over {tick, keep-alive, reconnect} up to length 5/7 (elapsed counts from the previous keep-alive or connect).",
+ "C03": " Also: every cut-off of a threshold walk reaches every connected host once; hosts up to 119 s behind with their own keep-alive.",
+ "C04": " Also: pool.Remote with node keys whose public coordinates begin with zero bytes; node-style identities on the payment endpoints.",
+ "C05": " Also: racing copies of one signed pool_withdraw.",
+ "C08": " Also: hosts a client stopped reporting are offered again exactly once their entries aged out.",
+ "C09": " Also: good-bye requests (vipnode_disconnect sent by a host) as BFS events.",
+ "C12": " Also: the empty account in the read battery; a getter that panics is a finding.",
+ "C13": " Also: balances returning to exactly zero; a golden database written by the pinned tree (golden/badger-v2) opened three times - getters as recorded, records unchanged.",
+ "C14": " Also: 6.5 MB of calls over jsonrpc2.ServePipe.",
+ "C15": " Also: schedule DFS of garbage-signed requests in the name of different nodes plus a valid one; the real agent as caller against a pool answering with ~460 combinations of hostile reply shapes.",
+ "C17": " Also: real TCP with a peer pinging every 2 ms while 2 MB messages are in flight, and with a reader stalling 6.5 s mid-message on the stream codec.",
+ "C18": " Also: DNS names and loopback / unspecified hosts in the address pairs; the running agent's own periodic keep-alive failing (node untouched).",
+ "C19": " Also: keep-alives of the host after every accepted registration (stored address unchanged); schedule DFS of the old connection's clean-up racing a re-registration from a new address.",
+}
+for pid, add in EXT5.items():
+    CHECKS[pid]["text"] += add
 for pid, (old, new) in NOTE_FIX.items():
     CHECKS[pid]["note"] = CHECKS[pid]["note"].replace(old, new)
 
